@@ -15,7 +15,7 @@ func init() {
 	register(&Property{
 		ID:      "C15",
 		NeedSSA: true,
-		Decided: "Structural necessary conditions for freedom from data races on shared state: (globals) no package-level variable of the library is written outside package initialisation, except the two classified ones: the bufio reader pool map, every access to which is preceded by Lock of its mutex in the same function, and the created-by string, written only inside a sync.Once; (immutable) package-level values shared by every writer and reader (encodings, codecs, types) have no method that writes a field of its receiver other than through sync/atomic/pool types; (cow) a map published through atomic.Value is never updated after the Store that publishes it — neither the map itself nor a map stored in it — and a map obtained from Load is never updated; (release) a buffer given back to a pool through a struct field is cleared from that field on every path, so it cannot be returned twice and handed to two owners; (wire) no call passes a struct field in the position of the parameter named after a sibling field (reference-counted level buffers handed to the wrong slot lose their reference); (async) the page-reading goroutine shares nothing but channels and the reader it owns with the consumer; (commit) row-group writers other than through Commit write no state of the parent writer; (construct) see C18.construct for the encryption state of concurrently filled row groups. (reentrant) a function that returns a closure and is not itself only called per operation returns a closure without state of its own: the closure assigns no captured variable, stores through no captured factory-allocated pointer/slice/map and calls no reflect setter on a captured reflect.Value. (atomic) no function both updates (Add/And/Or) and reloads the same atomic field; (globals, cont.) the lock call dominates every access to the guarded map.",
+		Decided: "Structural necessary conditions for freedom from data races on shared state: (globals) no package-level variable of the library is written outside package initialisation, except the two classified ones: the bufio reader pool map, every access to which is preceded by Lock of its mutex in the same function, and the created-by string, written only inside a sync.Once; (immutable) package-level values shared by every writer and reader (encodings, codecs, types) have no method that writes a field of its receiver other than through sync/atomic/pool types; (cow) a map published through atomic.Value is never updated after the Store that publishes it — neither the map itself nor a map stored in it — and a map obtained from Load is never updated; (release) a buffer given back to a pool through a struct field is cleared from that field on every path, so it cannot be returned twice and handed to two owners; (wire) no call passes a struct field in the position of the parameter named after a sibling field (reference-counted level buffers handed to the wrong slot lose their reference); (async) the page-reading goroutine shares nothing but channels and the reader it owns with the consumer; (commit) row-group writers other than through Commit write no state of the parent writer; (construct) see C18.construct for the encryption state of concurrently filled row groups. (reentrant) a function that returns a closure and is not itself only called per operation returns a closure without state of its own: the closure assigns no captured variable, stores through no captured factory-allocated pointer/slice/map and calls no reflect setter on a captured reflect.Value. (atomic) no function both updates (Add/And/Or) and reloads the same atomic field; (globals, cont.) the lock call dominates every access to the guarded map. (commitorder) in ConcurrentRowGroupWriter.Commit the call that records the committed row group (it hands the receiver to a method of the parent writer that stores into writer.rowGroups) is dominated by another call of a parent-writer method that reaches the same recorder: the parent's own buffered rows are written first, on every path.",
 		NotDecided: "deadlock freedom, scheduling, equality with a serial run, races inside dependencies or assembly, correctness of the reference counts as numbers.",
 		Assumptions: []string{"sync, sync/atomic and internal/memory.Pool are correct", "writes through unsafe pointers and reflection are not seen"},
 		Run:         runC15,
@@ -30,6 +30,7 @@ func runC15(c *Ctx) {
 	c15Wire(c, "C15.wire")
 	c15Async(c)
 	c15Commit(c)
+	c15CommitOrder(c)
 	c15AtomicDecide(c)
 	// the per-type functions cached on the shared *Schema keep no scratch of their own
 	runReentrantRule(c, "C15.reentrant", func(fn *ssa.Function) bool { return inModule(fn) }, nil, 60)
@@ -563,4 +564,84 @@ func c15AtomicDecide(c *Ctx) {
 	}
 	c.Stats[rule+".atomic_updates"] = n
 	c.Min(rule, 2)
+}
+
+// c15CommitOrder — Commit of a concurrently filled row group first writes the
+// rows the parent writer has buffered itself, then its own: in Commit, the call
+// that records the committed row group (it passes the receiver to a method of
+// the parent writer that stores into writer.rowGroups) is dominated by another
+// call of a parent-writer method that reaches the same recorder without being
+// handed the receiver. When the first call is missing, or made only under a
+// condition, rows written before BeginRowGroup come out after the committed
+// row group.
+func c15CommitOrder(c *Ctx) {
+	rule := "C15.commitorder"
+	p := c.P
+	obj := p.LookupFunc("(*ConcurrentRowGroupWriter).Commit")
+	rowGroups := p.LookupField("writer", "rowGroups")
+	wt := p.LookupType("writer")
+	if !c.Anchor(rule, "(*ConcurrentRowGroupWriter).Commit, writer.rowGroups", obj != nil && rowGroups != nil && wt != nil) {
+		return
+	}
+	fn := p.SSAFunc(obj)
+	records := func(g *ssa.Function) bool {
+		found := false
+		for _, w := range ChainWrites(g) {
+			for _, f := range w.Chain {
+				if f == rowGroups {
+					found = true
+				}
+			}
+		}
+		return found
+	}
+	reachesRecorder := func(g *ssa.Function) bool {
+		if records(g) {
+			return true
+		}
+		ok := false
+		allCalls(g, true, func(_ *ssa.Function, call ssa.CallInstruction) {
+			if h := call.Common().StaticCallee(); h != nil && h.Blocks != nil && records(h) {
+				ok = true
+			}
+		})
+		return ok
+	}
+	isWriterMethod := func(g *ssa.Function) bool {
+		if g == nil || g.Signature.Recv() == nil {
+			return false
+		}
+		n := namedOf(g.Signature.Recv().Type())
+		return n != nil && n.Obj() == wt.Obj()
+	}
+	var own, parent []ssa.CallInstruction
+	allCalls(fn, false, func(_ *ssa.Function, call ssa.CallInstruction) {
+		g := call.Common().StaticCallee()
+		if !isWriterMethod(g) || g.Blocks == nil || !reachesRecorder(g) {
+			return
+		}
+		passesRecv := false
+		for _, a := range call.Common().Args[1:] {
+			if a == ssa.Value(fn.Params[0]) {
+				passesRecv = true
+			}
+		}
+		if passesRecv {
+			own = append(own, call)
+		} else {
+			parent = append(parent, call)
+		}
+	})
+	if !c.Anchor(rule, "the call of Commit that records the committed row group", len(own) > 0) {
+		return
+	}
+	for i, o := range own {
+		ok := false
+		for _, pc := range parent {
+			if dominates(pc, o) {
+				ok = true
+			}
+		}
+		c.Check(rule, "Commit writes the parent's buffered rows before the committed row group#"+itoa(i+1), o.Pos(), ok, "(*ConcurrentRowGroupWriter).Commit records its row group without first, on every path, flushing the rows the parent writer has buffered: rows written before BeginRowGroup land after the committed row group in the file")
+	}
 }
